@@ -72,10 +72,15 @@ VRelA(u, xs, an) == [vk |-> "rel", u |-> u, xs |-> xs, an |-> an]
 VRel(u, xs) == VRelA(u, xs, <<>>)
 VFun(m, p)  == [vk |-> "fun", m |-> m, p |-> p]
 VConcat     == [vk |-> "concat"]
-VNamed(name, u) == [vk |-> "named", s |-> Sch("ref", name, 0, <<>>), u |-> u]   \* an explicit reference and the value it stands for
+\* an explicit reference and the value it stands for; dd: the description that reaches the reference itself (declaration
+\* line and use site), which the evaluator copies to a content made of the bare reference
+VNamedA(name, u, dd) == [vk |-> "named", s |-> Sch("ref", name, 0, <<>>), u |-> u, dd |-> dd]
+VNamed(name, u) == VNamedA(name, u, "")
 VBottom(w)  == [vk |-> "bottom", w |-> w]                               \* outside the fragment / ill-kinded
 
-ContentA(body, status, media, headers, desc) == [body |-> body, status |-> status, media |-> media, headers |-> headers, desc |-> desc]
+\* desc: the description written on the content; sdesc: the description of a schema used directly as the content (the
+\* evaluator copies it to the content when the schema is inline, not when it is a recursion point: either is accepted)
+ContentA(body, status, media, headers, desc) == [body |-> body, status |-> status, media |-> media, headers |-> headers, desc |-> desc, sdesc |-> "", sdesc2 |-> ""]
 Content(body, status, media, headers) == ContentA(body, status, media, headers, "")
 
 \* a value used where a schema is expected
@@ -86,7 +91,10 @@ AsSchema(v) ==
   CASE v.vk \in {"schema", "named"} -> v.s
     [] v.vk \in {"uri", "rel"} -> WithAn(Leaf("uri"), v.an)
     [] OTHER -> Sch("BOTTOM", v.vk, 0, <<>>)
-AsContent(v) == IF v.vk = "content" THEN v.c ELSE Content(<<AsSchema(v)>>, "", "", <<>>)
+\* a schema used where a content is expected: a content with that body; the schema's description is the content's too
+AsContent(v) == IF v.vk = "content" THEN v.c
+                ELSE [ContentA(<<AsSchema(v)>>, "", "", <<>>, "") EXCEPT !.sdesc = AVal(AsSchema(Und(v)).an, "description"),
+                                                                         !.sdesc2 = IF v.vk = "named" THEN v.dd ELSE ""]
 AsRanges(v) == IF v.vk = "ranges" THEN v.cs ELSE <<AsContent(v)>>
 \* the ranges of a transfer are a map keyed by (status, media type) as written: of two contents with the same key the later
 \* one stands (the language's rule for `::`, like a later property of the same name in `&`)
@@ -107,7 +115,8 @@ Concat(l, r) ==
   IN VUriA(ls \o r.segs, r.params, r.an)
 
 \* ---- environments: sequence of frames [b: binder, kind: "thunk" | "rec", m, p, env] -------------
-Frame(b, kind, m, p, env) == [b |-> b, kind |-> kind, m |-> m, p |-> p, env |-> env]
+FrameA(b, kind, m, p, env, an) == [b |-> b, kind |-> kind, m |-> m, p |-> p, env |-> env, an |-> an]
+Frame(b, kind, m, p, env) == FrameA(b, kind, m, p, env, <<>>)
 
 RECURSIVE FindFrame(_, _, _)
 FindFrame(env, i, b) == IF i = 0 THEN 0 ELSE IF env[i].b = b THEN i ELSE FindFrame(env, i - 1, b)
@@ -178,24 +187,28 @@ D(prog, tables, m, p, env, d, h, I) ==
          LET u == AsUri(sub(1, d)) IN
          VRelA(u, [j \in 1..(Len(nd.a) - 1) |-> LET v == sub(j + 1, d) IN IF v.vk = "xfer" THEN v.x ELSE xferBottom], J)
     [] nd.k = "rec" ->
-         D(prog, tables, m, Append(p, 1), Append(env, Frame(B(m, p, "rec"), "rec", m, p, env)), d, h, J)
+         \* the frame remembers the annotations the rec expression was entered with: every unfolding carries them
+         D(prog, tables, m, Append(p, 1), Append(env, FrameA(B(m, p, "rec"), "rec", m, p, env, I)), d, h, J)
     [] nd.k = "var" ->
-         LET b == (CHOOSE r \in tables[m] : r.use = p).b IN
+         LET b == (CHOOSE r \in tables.t[m] : r.use = p).b IN
          CASE b.kind = "internal" -> VConcat
            [] b.kind \in {"param", "rec"} ->
                 LET i == FindFrame(env, Len(env), b) IN
                 IF i = 0 THEN VBottom("unbound")
                 ELSE IF h >= MaxHops THEN VSchema(Cut)
                 ELSE LET f == env[i] IN
-                     IF f.kind = "rec" THEN D(prog, tables, f.m, f.p, f.env, d, h + 1, <<>>)      \* unfold the rec expression again
+                     IF f.kind = "rec" THEN D(prog, tables, f.m, f.p, f.env, d, h + 1, f.an)      \* unfold the rec expression again
                      ELSE D(prog, tables, f.m, f.p, f.env, d, h + 1, J)                          \* the argument, as if written here
            [] OTHER ->
                 LET dc == prog.mods[b.m][b.p[1]]
-                    I2 == AExt(Own(dc), J)                       \* the use site wins over the declaration line
+                    \* the use site wins over the declaration line; a recursive declaration is a component shared by all
+                    \* its uses (like an explicit reference): it carries its own annotations only
+                    I2 == IF b.p[1] \in tables.rec[b.m] THEN Own(dc) ELSE AExt(Own(dc), J)
                 IN
                 IF dc.n > 0 THEN VFun(b.m, b.p)
                 ELSE IF dc.q = "@"
-                THEN VNamed(dc.s, IF h >= MaxHops THEN VSchema(Cut) ELSE D(prog, tables, b.m, <<b.p[1], 1>>, <<>>, d, h + 1, Own(dc)))
+                THEN VNamedA(dc.s, IF h >= MaxHops THEN VSchema(Cut) ELSE D(prog, tables, b.m, <<b.p[1], 1>>, <<>>, d, h + 1, Own(dc)),
+                              AVal(AExt(Own(dc), J), "description"))
                 ELSE IF h >= MaxHops THEN VSchema(Cut)
                 ELSE D(prog, tables, b.m, <<b.p[1], 1>>, <<>>, d, h + 1, I2)
     [] nd.k = "app" ->
@@ -211,7 +224,15 @@ D(prog, tables, m, p, env, d, h, I) ==
     [] OTHER -> VBottom(nd.k)
 
 \* ---- the document -----------------------------------------------------------------------------
-Tables(prog) == [m \in DOMAIN prog.mods |-> RefTable(prog, m)]
+\* the binding tables of all modules, and the declarations that lie on a cycle of the definition graph of their module
+\* (imports are acyclic): those become components shared by all their uses
+DeclEdges(prog, m, t) == {<<r.use[1], r.b.p[1]>> : r \in {x \in t : prog.mods[m][x.use[1]].k = "decl" /\ x.b.kind = "decl" /\ x.b.m = m}}
+RECURSIVE DReach(_, _, _)
+DReach(G, S, n) == IF n = 0 THEN S ELSE DReach(G, S \cup {e[2] : e \in {d \in G : d[1] \in S}}, n - 1)
+RecDeclsOf(prog, m, t) == LET G == DeclEdges(prog, m, t) IN
+  {i \in {e[1] : e \in G} : i \in DReach(G, {e[2] : e \in {d \in G : d[1] = i}}, Cardinality(G) + 1)}
+Tables(prog) == LET t == [m \in DOMAIN prog.mods |-> RefTable(prog, m)] IN
+  [t |-> t, rec |-> [m \in DOMAIN prog.mods |-> RecDeclsOf(prog, m, t[m])]]
 
 \* one path item per resource of the main module
 PathItem(v) ==
